@@ -1,0 +1,48 @@
+//go:build verif
+
+package engine
+
+import (
+	"io"
+	"strings"
+)
+
+// verifCountingReader counts what a term reader pulls from its input.
+type verifCountingReader struct {
+	r      *strings.Reader
+	bytes  int  // bytes of the runes pulled
+	last   int  // size of the rune pulled last; 0 after the end of the input was reported
+	sawEOF bool // the end of the input was reported
+}
+
+func (c *verifCountingReader) ReadRune() (rune, int, error) {
+	r, n, err := c.r.ReadRune()
+	if err != nil {
+		c.sawEOF = true
+		c.last = 0
+		return r, n, err
+	}
+	c.bytes += n
+	c.last = n
+	return r, n, nil
+}
+
+// VerifReadProbe runs the term reader (lexer + parser, as read_term/3 builds it) alone over src — no Stream,
+// no ReadTerm — and reports how it ended ("term", "eof" = io.EOF, "syntax" = any other error), the term if
+// any, how many bytes it pulled from its input, the size of the rune it pulled last (0 if it ran into the
+// end of the input instead) and whether the end of the input was reported to it.
+// Observation hook for the /verif harness.
+func VerifReadProbe(vm *VM, src string) (outcome string, t Term, pulled int, last int, sawEOF bool) {
+	cr := &verifCountingReader{r: strings.NewReader(src)}
+	p := NewParser(vm, cr)
+	t, err := p.Term()
+	switch err {
+	case nil:
+		outcome = "term"
+	case io.EOF:
+		outcome = "eof"
+	default:
+		outcome = "syntax"
+	}
+	return outcome, t, cr.bytes, cr.last, cr.sawEOF
+}
